@@ -65,6 +65,106 @@ structure TermStats where
 /-- `fmt.Sprintf("%d", n)` -/
 def fmtD (n : Nat) : String := toString n
 
+/-! ## where the statistics of a real search come from (phase 2: reachability of the theorems' hypotheses)
+
+`TermSearcher` (search/searcher/search_term.go) asks the index snapshot for `CollectionStats(field)` and for a postings
+iterator of `(term, field)`; both are **sums over the same list of segments** (index/snapshot.go `CollectionStats`,
+index/postings.go `postingsIterator.Count`; the shape of these loops is re-extracted by `go/extract/c17.go` as
+`BlugeGen.C17.statsFacts`). What one segment contributes comes from the segment plugin (ice), which is modelled, not
+verified: the per-segment predicate `SegStat.ok` is the assumption, evaluated by the correspondence run on every segment
+of every real search (a recording wrapper around the plugin). -/
+
+/-- what ONE segment contributes to the statistics of a term searcher -/
+structure SegStat where
+  /-- `PostingsList.Count()` of the term, built with the segment's deleted bitmap as `except` (live postings only) -/
+  n : Nat
+  /-- `CollectionStats(field).DocumentCount()` (ice: documents of the segment that have the field, deleted ones included) -/
+  bigN : Nat
+  /-- `CollectionStats(field).SumTotalTermFrequency()` -/
+  ttf : Nat
+  deriving Repr, DecidableEq, Inhabited
+
+/-- `postingsIterator.Count`: `for _, posting := range i.postings { rv += posting.Count() }` -/
+def docFreqOf (segs : List SegStat) : Nat := segs.foldl (fun rv s => rv + s.n) 0
+/-- `Snapshot.CollectionStats`: `rv = first; rv.Merge(next)…`, `Merge` adds `docCount` -/
+def docCountOf (segs : List SegStat) : Nat := segs.foldl (fun rv s => rv + s.bigN) 0
+/-- … and `sumTotalTermFreq` -/
+def sumTtfOf (segs : List SegStat) : Nat := segs.foldl (fun rv s => rv + s.ttf) 0
+
+/-- the assumption on the segment plugin, per segment: the live postings of a term are documents that have the field,
+and a segment that still has a live posting of the term has counted at least one token of the field -/
+def SegStat.ok (s : SegStat) : Bool := decide (s.n ≤ s.bigN) && (s.n == 0 || decide (1 ≤ s.ttf))
+
+def segsOk (segs : List SegStat) : Bool := segs.all SegStat.ok
+
+/-- ALL hypotheses of `real_hit_score_pos_bounded` about the index side of one real hit, as one decidable predicate (the
+driver evaluates exactly this function on every term node of every hit of the `dhit` stream): every segment obeys
+`SegStat.ok`, some segment has a live posting of the term (the hit itself), the `uint64` sums do not wrap, the document
+has at least one occurrence, no more occurrences than tokens, and a field length below the float32 `+Inf` pattern -/
+def RealHitOk (segs : List SegStat) (f len : Nat) : Bool :=
+  segsOk segs && segs.any (fun s => decide (1 ≤ s.n)) && decide (docCountOf segs < 2 ^ 64) &&
+    decide (1 ≤ f) && decide (f ≤ len) && decide (len ≤ 0x7f800000)
+
+/-! ### the field length from the indexed document to `docLen` inside `Score`
+
+`ComputeNorm(numTerms) = math.Float32frombits(uint32(numTerms))` (bm25.go, shape checked by the extractor); the plugin
+stores `math.Float32bits(norm)` as a uvarint (ice new.go) or, in the 1-hit encoding written by a merge, in 31 bits
+(ice posting.go `fSTValEncode1Hit`); a merge re-encodes `math.Float32bits(float32(next.Norm()))`; `Posting.Norm()` is
+`float64(float32 value)`; `Score`/`explainTf`/`Explain` read `math.Float32bits(float32(norm))`.
+
+All of it is identity on bit patterns EXCEPT: `uint32(·)` truncates, the 1-hit encoding keeps 31 bits, and
+float32 → float64 → float32 quiets a signalling NaN (sets mantissa bit 22; amd64 `CVTSS2SD`). `f32RoundTrip` states that
+IEEE fact as a definition — it is an ASSUMPTION of the model (Lean has no provable float32), validated by the
+correspondence run's `norm` lines on every length of a contiguous range and on the boundary patterns. -/
+
+/-- Go `uint32(numTerms)` for a non-negative `int` -/
+def u32 (n : Nat) : Nat := n % 2 ^ 32
+
+/-- is this float32 bit pattern a NaN -/
+def isNaN32 (bits : Nat) : Bool := (bits / 2 ^ 23) % 256 == 255 && bits % 2 ^ 23 != 0
+
+/-- `math.Float32bits(float32(float64(math.Float32frombits(bits))))` for `bits < 2^32` -/
+def f32RoundTrip (bits : Nat) : Nat := if isNaN32 bits then bits ||| 0x400000 else bits
+
+def iterN {α : Type} (f : α → α) : Nat → α → α
+  | 0, x => x
+  | k + 1, x => iterN f k (f x)
+
+/-- the `docLen` that `Score` computes for a posting of a document whose field has `numTerms` tokens, after `merges`
+segment merges, read from a 1-hit encoded postings list or not -/
+def dlSeen (numTerms : Nat) (merges : Nat) (oneHit : Bool) : Nat :=
+  let bits := u32 numTerms
+  let merged := iterN f32RoundTrip merges bits
+  let stored := if oneHit then merged % 2 ^ 31 else merged
+  f32RoundTrip stored
+
+/-- field lengths for which `dlSeen` is the identity: up to the bit pattern of `+Inf` -/
+def maxExactLen : Nat := 0x7f800000
+
+/-! ### field length and term frequency of an analysed document
+
+`TermField.Analyze` sets `analyzedLength = len(tokens)` and `analyzedTokenFreqs = TokenFrequency(tokens)` (every token adds
+1 to exactly one term); `CompositeField.Consume` adds the consumed field's length and merges its frequencies; ice adds up
+`field.Length()` and the frequencies of all fields of the same name (`processDocument`). The shape of the bluge side is
+re-extracted as `BlugeGen.C17.lengthFacts`. -/
+
+/-- one analysed field of a document: its name and the terms of its tokens, in order -/
+structure AField where
+  name : String
+  tokens : List String
+
+/-- a composite field `cname` that consumes the fields selected by `inc` behaves like extra fields named `cname` -/
+def expandComposite (cname : String) (inc : String → Bool) (doc : List AField) : List AField :=
+  doc ++ ((doc.filter fun f => f.name != cname && inc f.name).map fun f => { name := cname, tokens := f.tokens })
+
+/-- ice `processDocument`: `fieldLens[fieldID] += field.Length()` -/
+def fieldLength (doc : List AField) (name : String) : Nat :=
+  ((doc.filter (·.name == name)).map (·.tokens.length)).sum
+
+/-- ice `processDocument`: `existingTf.frequency += term.Frequency()` -/
+def termFreq (doc : List AField) (name term : String) : Nat :=
+  ((doc.filter (·.name == name)).map (·.tokens.count term)).sum
+
 /-! ## `Float` instance (IEEE-754 binary64, the driver's number type) -/
 
 /-- float64(n) for n < 2^64 is the correctly rounded conversion (C cast), as in Go -/
